@@ -210,6 +210,12 @@ fn check_request(src: &hpo::Ontology, c: &Case, m: &Model, src_facts: &Facts, mo
     if kept.len() < inside.len() {
         stats.label("terms-pruned");
     }
+    if kept.len() > 30 {
+        stats.label("more-than-30-terms-retained");
+        if dropped > 0 {
+            stats.label("more-than-30-terms-retained-and-a-record-dropped");
+        }
+    }
     if dropped > 0 {
         stats.label("record-dropped");
     }
@@ -227,7 +233,11 @@ fn strategy(tier: Tier) -> BoxedStrategy<Case> {
     // names up to 300 bytes; for the binary paths they are cut to the 255 bytes the format stores
     let cfg = GenCfg::small().terms(2, max).recs(6).standard().with_flags(true).names(NameMode::Rich);
     let paths = prop_oneof![6 => Just(PathSel::Bin(3)), 2 => Just(PathSel::Bin(2)), 1 => Just(PathSel::Bin(1)), 2 => Just(PathSel::Jax), 1 => Just(PathSel::JaxT), 1 => Just(PathSel::RoundTrip), 1 => Just(PathSel::BuilderDefaults)];
-    (gen::facts(cfg), paths, prop_oneof![2 => Just(None), 3 => any::<u16>().prop_map(Some)], prop_oneof![19 => vec((any::<u16>(), 0u8..12), 1..=6), 1 => vec((any::<u16>(), 0u8..12), 31..=45)], prop_oneof![5 => Just(Vec::new()), 1 => vec(any::<u16>(), 1..=3)])
+    // one case in thirteen: 36-56 terms, most of them retained (more than 30 retained terms, records with several
+    // direct terms of which some are retained and some are not); fans and chains only, the path search of the library
+    // being exponential in the number of alternative routes
+    let large = GenCfg::small().terms(36, 56).recs(6).standard().with_flags(true).names(NameMode::Plain).shapes(&[3, 1, 3]);
+    (prop_oneof![12 => gen::facts(cfg), 1 => gen::facts(large)], paths, prop_oneof![2 => Just(None), 3 => any::<u16>().prop_map(Some)], prop_oneof![19 => vec((any::<u16>(), 0u8..12), 1..=6), 1 => vec((any::<u16>(), 0u8..12), 31..=45)], prop_oneof![5 => Just(Vec::new()), 1 => vec(any::<u16>(), 1..=3)])
         .prop_map(|(mut facts, path, root_pick, leaf_picks, custom_modifier)| {
             if !matches!(path, PathSel::Jax | PathSel::JaxT | PathSel::BuilderDefaults) {
                 for t in facts.terms.iter_mut() {
@@ -257,6 +267,10 @@ fn strategy(tier: Tier) -> BoxedStrategy<Case> {
                 } else {
                     leaves.push(inside[pick(p, inside.len())]);
                 }
+            }
+            if facts.terms.len() >= 36 {
+                let skip = leaves.len() % 5;
+                leaves.extend(inside.iter().enumerate().filter(|(i, _)| (i + skip) % 5 != 0).map(|(_, t)| *t));
             }
             Case { facts, root, leaves, path, custom_modifier }
         })
